@@ -36,4 +36,11 @@ def replay(w):
             fr = check_fn.fresh_call(wd, sc, j)
             return check_fn.ot(fr) != got
         return got == check_fn.ot(w["impl"])
+    if kind == "graph":
+        from corr_g import GraphWorld
+
+        sc = w["scenario"]
+        im = GraphWorld(wd, sc).run()
+        b = im[w["op_index"]]
+        return {"o": b["o"], "t": b.get("t")} != w["expected"]
     raise ValueError(kind)
